@@ -62,6 +62,7 @@ func main() {
 			c.Require("histories", 100)
 			c.Require("max.prodscale_stored_lines", 10000)
 			c.Require("clientlog.histories", 10)
+			c.Require("bigdump.fresh_lines_logged_during_dumps", 100)
 			c.Require("printf.fresh_fits", 500)
 			c.Require("printf.fresh_evicts", 200)
 			c.Require("printf.repeat", 200)
@@ -1450,6 +1451,7 @@ func childConc(b run.Batch, r *ev.Result) {
 	if b.Tier == "thorough" {
 		opsPer = 12000
 	}
+	bigDump(b, r, rng)
 	for round := 0; round < b.N; round++ {
 		c := cfgs[(round+int(b.Seed))%len(cfgs)]
 		if round >= len(cfgs) {
